@@ -232,10 +232,11 @@ def command (sc : Scen) (key : String) (v : List Int) : IO Scen := do
                           tm := if tm == 0 then .jumpByOne else if tm == 1 then .jumpToEvent else .forceJump }
       match smStep orc inst sc.cfg.sm sc.cfg.fuel env.res.state env.rng a with
       | .error e => printErr e; pure sc
-      | .ok (res, _, mic) =>
+      | .ok (res, r, mic) =>
+        -- the stochastic objects live in the instance: their update counters persist
         for s in mic do IO.println s!"T {s.canon}"
         printRes res
-        pure sc
+        pure { sc with env := some { env with rng := r } }
   | "SMAPPLY", tm :: rest =>
     -- like SMSTEP but the env adopts the result (multi-transition actions through the core API)
     match sc.env with
